@@ -289,20 +289,45 @@ func srvRun(a []string) string {
 	defer c.cleanup()
 	var out []string
 	for _, op := range strings.Split(a[1], ",") {
-		before := c.counters()
-		r := c.doOpSrv(op)
-		c.settle()
-		rendered := c.render()
-		if strings.HasPrefix(op, "tick.") {
-			// the Dels of sessions one tick disposed are reported by independent goroutines
-			p := strings.SplitN(rendered, "/", 2)
-			if len(p) == 2 && p[1] != "-" {
-				ns := strings.Split(p[1], "+")
-				sort.Strings(ns)
-				rendered = p[0] + "/" + strings.Join(ns, "+")
+		// Everything that calls into the server runs under a watchdog: on a broken tree a tick may
+		// never return (a second Dispose of a group that was not erased blocks on its exit channel)
+		// or leave the server lock held for ever, and a panic inside lal must not kill the run.
+		done := make(chan string, 1)
+		go func(op string) {
+			defer func() {
+				if e := recover(); e != nil {
+					done <- "panic"
+				}
+			}()
+			before := c.counters()
+			r := c.doOpSrv(op)
+			c.settle()
+			rendered := c.render()
+			if strings.HasPrefix(op, "tick.") {
+				// the Dels of sessions one tick disposed are reported by independent goroutines
+				p := strings.SplitN(rendered, "/", 2)
+				if len(p) == 2 && p[1] != "-" {
+					ns := strings.Split(p[1], "+")
+					sort.Strings(ns)
+					rendered = p[0] + "/" + strings.Join(ns, "+")
+				}
 			}
+			done <- r + "/" + rendered + "/" + c.extra(before)
+		}(op)
+		select {
+		case r := <-done:
+			if r == "panic" { // what follows would observe a half-updated server
+				c.disposed = true
+				out = append(out, "panic/-/-/-~-~-")
+				return strings.Join(out, ";") + ";anomaly:panic-in-" + strings.Split(op, ".")[0]
+			}
+			out = append(out, r)
+		case <-time.After(3 * admWaitDur()):
+			atomic.AddInt32(&admTimeouts, 1)
+			c.disposed = true // no ServerManager.Dispose at cleanup: the server lock may be held for ever
+			out = append(out, "hang/-/-/-~-~-")
+			return strings.Join(out, ";") + ";anomaly:op-never-returned"
 		}
-		out = append(out, r+"/"+rendered+"/"+c.extra(before))
 	}
 	res := strings.Join(out, ";")
 	atomic.AddInt32(&admTimeouts, int32(len(c.anomalies)))
